@@ -67,6 +67,19 @@ def objective_clause(ctx, clamp, record, nparams):
     ctx.prove("initial-guess-and-bounds-passed", record["x0"] == list(clamp.initial_guess) and record["bounds"] is clamp.bounds)
 
 
+def _given(*arrays):
+    """Copies to hand to a constructor ..."""
+    return [np.array(a, dtype=a.dtype) for a in arrays]
+
+
+def _scribble(arrays):
+    """... and what happens to the first of them afterwards: a clamp is created with a vertex' position array, which
+    optimisation then moves in place; the clamp's manifold is defined by the position it was created at"""
+    a = arrays[0]
+    for k in range(len(a)):
+        a[k] = a[k] + 7
+
+
 @proof("C17", "LineClamp", functions=[CL + "curve:LineClamp.__init__", CL + "clamp:ClampBase.__init__", CL + "clamp:ClampBase.get_params",
                                      CL + "clamp:ClampBase.update_params"],
        uses=["scipy.optimize.minimize (havoc-ing external, A2)"], samples=15)
@@ -74,7 +87,9 @@ def line_clamp(ctx):
     pos, p1, p2 = ctx.vec("x"), ctx.vec("a"), ctx.vec("b")
     ctx.assume(G.dist2(p1, p2) > 0.01)
     rec = {"position": pos}
-    clamp = make(ctx, lambda: LineClamp(pos, p1, p2), rec)
+    mine = _given(pos, p1, p2)
+    clamp = make(ctx, lambda: LineClamp(*mine), rec)
+    _scribble(mine)
     d = p2 - p1
 
     def on_line(p):
@@ -102,7 +117,9 @@ def radial_clamp(ctx):
     ctx.assume(G.norm2(n) > 0.01)
     ctx.assume(G.norm2(G.cross(pos - c, n)) > 0.01)
     rec = {"position": pos}
-    clamp = make(ctx, lambda: RadialClamp(pos, c, n), rec)
+    mine = _given(pos, c, n)
+    clamp = make(ctx, lambda: RadialClamp(*mine), rec)
+    _scribble(mine)
     t = ctx.real("t")
     clamp.update_params([t])
     p = clamp.position
@@ -128,7 +145,9 @@ def plane_clamp(ctx):
     ctx.assume(G.norm2(G.cross(nu + rnd, n)) > 0.0001)
     rec = {"position": pos}
     with ctx.stub(surface_mod.np.random, "random", lambda k: rnd, only_symbolic=False):
-        clamp = make(ctx, lambda: PlaneClamp(pos, pt, n), rec)
+        mine = _given(pos, pt, n)
+        clamp = make(ctx, lambda: PlaneClamp(*mine), rec)
+    _scribble(mine)
     u, v = ctx.real("u"), ctx.real("v")
     clamp.update_params([u, v])
     ctx.prove("position-in-the-plane", ctx.eq(G.dot(clamp.position - pt, n), 0, tol=1e-6))
